@@ -46,6 +46,7 @@ package z80
 //@ func (cpu *CPU) Run(ctx context.Context) (err error)
 //@   layer P
 //@   props C08 C13 C18
+//@   requires ctx != nil
 //@   requires vsGhostMem(cpu.Memory)
 //@   requires !g.Stepped
 //@   ensures [at-least-one-step] g.Stepped || (err != nil && err != ErrBreakPoint)
@@ -53,8 +54,8 @@ package z80
 //@   ensures [halt] err != nil || (g.Stepped && cpu.HALT && !vsBPHit(cpu.BreakPoints, cpu.PC))
 //@   modifies cpu.States, cpu.HALT, cpu.Interrupt, g.Mem, g.Rd, g.Wr, g.PIn, g.POut, g.Retn, g.Reti, g.Log, g.LogN, g.Stepped
 //@ loop #0
-//@   invariant !cpu.HALT
-//@   invariant !g.Stepped || !vsBPHit(cpu.BreakPoints, cpu.PC)
+//@   invariant [property] !cpu.HALT
+//@   invariant [property] !g.Stepped || !vsBPHit(cpu.BreakPoints, cpu.PC)
 //@   modifies cpu.States, cpu.HALT, cpu.Interrupt, g.Mem, g.Rd, g.Wr, g.PIn, g.POut, g.Retn, g.Reti, g.Log, g.LogN, g.Stepped
 
 //@ func (cpu *CPU) processInterrupt() (accepted bool)
@@ -512,7 +513,8 @@ package z80
 //@   ensures vsForall16(func(k uint16) bool { return vsMapView(mm, k) == vsPutView(old(mm), addr, data, k) })
 //@   modifies contents(mm)
 //@ loop #0 vars a uint16 (addr), i int (rangeindex)
-//@   invariant -1 <= i && i < len(data) && a == addr+uint16(i+1)
+//@   invariant -1 <= i && i < len(data)
+//@   invariant [aux] a == addr+uint16(i+1)
 //@   invariant vsForall16(func(k uint16) bool { return vsMapView(mm, k) == vsPutViewN(old(mm), addr, data, k, i+1) })
 //@   modifies contents(mm)
 
